@@ -115,7 +115,7 @@ def encode_base58(s):
         else:
             break
     # convert from binary to hex, then hex to integer
-    num = int(s.hex(), 16)
+    num = int.from_bytes(s, "big")
     result = ""
     prefix = "1" * count
     while num > 0:
